@@ -99,7 +99,7 @@ Fixpoint pair_idxs (k : nat) (i : nat) : list nat :=
 
 (* re.sub with a callback that may raise *)
 Definition re_subM (p : pattern) (f : mmatch -> M str) (s : str) : M str :=
-  dec <- of_fuel (finditer p s) ;;
+  let dec := finditer_t p s in
   parts <- mapM (fun gm => r <- f (snd gm) ;; ret (fst gm ++ r)) (fst dec) ;;
   ret (concat parts ++ snd dec).
 
@@ -136,28 +136,25 @@ Fixpoint first_set_group (mm : mmatch) (n i : nat) : option nat :=
   | S n' => match group_start mm i with Some s => Some s | None => first_set_group mm n' (S i) end
   end.
 
-Definition fix_ml_line (line : str) : M (list str) :=
+Definition fix_ml_line (line : str) : list str :=
   let stripped := lstrip line in
-  if starts_any stripped tag_open_delims then ret [line]
+  if starts_any stripped tag_open_delims then [line]
   else
-    sr <- of_fuel (re_search re_multiline_closing line) ;;
-    match sr with
-    | None => ret [line]
+    match re_search_t re_multiline_closing line with
+    | None => [line]
     | Some mm =>
         match first_set_group mm (p_ngroups re_multiline_closing - 1) 1 with
-        | Some sp => ret [rstrip (firstn sp line); lstrip (skipn sp line)]
-        | None => ret []     (* Python: the line is dropped (loop falls through to continue) *)
+        | Some sp => [rstrip (firstn sp line); lstrip (skipn sp line)]
+        | None => []     (* Python: the line is dropped (loop falls through to continue) *)
         end
     end.
 
-Definition fix_multiline_opening_tag_with_closing (text : str) : M str :=
-  if negb (contains_ch 10 text) then ret text
+Definition fix_multiline_opening_tag_with_closing (text : str) : str :=
+  if negb (contains_ch 10 text) then text
   else
     match split_on 10 text with
-    | [] => ret text
-    | l0 :: rest =>
-        parts <- mapM fix_ml_line rest ;;
-        ret (join [10] (l0 :: concat parts))
+    | [] => text
+    | l0 :: rest => join [10] (l0 :: concat (map fix_ml_line rest))
     end.
 
 (* ---- add_tag_newline_handling ---- *)
@@ -207,7 +204,7 @@ Fixpoint wrap_segments (base : wrapper) (segs : list str) (first : bool) (i1 i2 
 Definition add_tag_newline_handling (base : wrapper) : wrapper :=
   fun text i1 i2 =>
     let simple :=
-      r <- base text i1 i2 ;; fix_multiline_opening_tag_with_closing r in
+      r <- base text i1 i2 ;; ret (fix_multiline_opening_tag_with_closing r) in
     if negb (contains_ch 10 text) then simple
     else
       let lines := split_on 10 text in
@@ -223,6 +220,6 @@ Definition add_tag_newline_handling (base : wrapper) : wrapper :=
           | w0 :: wrest =>
               let parts := w0 :: rejoin_parts s0 srest wrest in
               let result := join [10] parts in
-              fix_multiline_opening_tag_with_closing (fix_closing_tag_spacing result)
+              ret (fix_multiline_opening_tag_with_closing (fix_closing_tag_spacing result))
           end
       end.
